@@ -329,6 +329,9 @@ func (sesh *Session) Close() error {
 	if err != nil {
 		return err
 	}
+	// the session is closed now: whether or not the notice below can be built and sent, its connections must
+	// be closed - nothing else will do it, closeSession succeeds only once
+	defer sesh.sb.closeAll()
 	// we send a notice frame telling remote to close the session
 
 	buf := sesh.streamObfsBufPool.Get().(*[]byte)
@@ -351,7 +354,6 @@ func (sesh *Session) Close() error {
 	if err != nil {
 		return err
 	}
-	sesh.sb.closeAll()
 	log.Debugf("session %v closed gracefully", sesh.id)
 	return nil
 }
